@@ -31,7 +31,7 @@ theorem map_congr' {α β} {f g : α → β} {l : List α} (hfg : ∀ x ∈ l, f
     simp only [List.map_cons, hfg a (List.mem_cons_self ..), ih (fun x hx => hfg x (List.mem_cons_of_mem _ hx))]
 
 section
-variable {B X : Registry} {ds : List Mod} {dk : KeyMap} (h : DevExt B X ds dk)
+variable {B X : Registry} {ds : List Mod} {dk : KeyMap} (h : DevExtCore B X ds dk)
 include h
 
 /-- The new modules in the order of their table keys. -/
@@ -89,22 +89,36 @@ theorem need_le_fuel (env : Env) {root : Mod} {scope : List Stmt} {n : Stmt} (vi
   Nat.le_trans (Fuel.need_le_entryNeed vis inv) (Fuel.entryNeed_le_entryFuel env.reg)
 
 /-- Conversion of a statement of a module of `B` at the top-level fuels of the two runs. -/
-theorem toEntry_runs {plug : Plug} (hplug : PlugAgree plug B X) (opts : Opts) (root : Mod) (scope : List Stmt) (n : Stmt)
+theorem toEntry_runs (hno : ∀ m ∈ B.mods, noUses m.stmt = true) {plug : Plug} (hplug : PlugAgree plug B X) (opts : Opts) (root : Mod) (scope : List Stmt) (n : Stmt)
     (vis : List NodeId) (st : TState) (inv : Fuel.Inv (envOf B opts plug) root scope n) :
     toEntry (envOf X opts plug) (entryFuel X) root scope n vis st =
       toEntry (envOf B opts plug) (entryFuel B) root scope n vis st := by
   have invX : Fuel.Inv (envOf X opts plug) root scope n := ⟨mem_X h inv.root_mem, inv.node, inv.scope⟩
-  exact toEntry_env (B := B) (envOf X opts plug) (envOf B opts plug) rfl (envAgree h hplug opts) h.noUsesB
+  exact toEntry_env (B := B) (envOf X opts plug) (envOf B opts plug) rfl (envAgree h hplug opts) hno
     (fun m hm => mem_X h hm) (entryFuel B) (entryFuel X) root scope n vis st inv
     (need_le_fuel (envOf B opts plug) vis inv) (need_le_fuel (envOf X opts plug) vis invX)
 
-theorem conv_base {plug : Plug} (hplug : PlugAgree plug B X) (opts : Opts) :
+omit h in
+/-- The conversions of the statements of the modules of `B` agree in the two runs, each at its
+top-level fuel.  Proved when `B` has no `uses` (`convAgree_noUses`). -/
+def ConvAgree (B X : Registry) (opts : Opts) (plug : Plug) : Prop :=
+  ∀ (root : Mod) (scope : List Stmt) (n : Stmt) (vis : List NodeId) (st : TState),
+    Fuel.Inv (envOf B opts plug) root scope n →
+    toEntry (envOf X opts plug) (entryFuel X) root scope n vis st =
+      toEntry (envOf B opts plug) (entryFuel B) root scope n vis st
+
+theorem convAgree_noUses (hno : ∀ m ∈ B.mods, noUses m.stmt = true) {plug : Plug} (hplug : PlugAgree plug B X)
+    (opts : Opts) : ConvAgree B X opts plug :=
+  fun root scope n vis st inv => toEntry_runs h hno hplug opts root scope n vis st inv
+
+omit h in
+theorem conv_base {plug : Plug} {opts : Opts} (hconv : ConvAgree B X opts plug) :
     (keyOrder B).foldl (fun st m => (toEntry (envOf X opts plug) (entryFuel X) m [] m.stmt [] st).2) {} =
       tstate B opts plug := by
   unfold tstate
   apply Fuel.foldl_ext_mem
   intro st m hm
-  rw [toEntry_runs h hplug opts m [] m.stmt [] st (Fuel.Inv.top (Bridge.keyOrder_mem B m hm))]
+  rw [hconv m [] m.stmt [] st (Fuel.Inv.top (Bridge.keyOrder_mem B m hm))]
 
 /-- The conversion state of the run with the new modules: that of the run without them, plus one
 cache row and one empty row of pending augments per new module. -/
@@ -155,12 +169,12 @@ theorem entryFuel_succ (reg : Registry) : ∃ k, entryFuel reg = k + 1 := by
     rw [Fuel.entryFuel_eq]; exact Nat.le_trans (by decide) (Nat.le_add_left 64 _)
   exact ⟨entryFuel reg - 1, (Nat.sub_add_cancel this).symm⟩
 
-theorem tstate_ext {plug : Plug} (hplug : PlugAgree plug B X) (opts : Opts) :
+theorem tstate_ext {plug : Plug} {opts : Opts} (hconv : ConvAgree B X opts plug) :
     ConvExt ds (tstate B opts plug) (tstate X opts plug) := by
   have e : tstate X opts plug = (newOrder X dk).foldl
       (fun st m => (toEntry (envOf X opts plug) (entryFuel X) m [] m.stmt [] st).2) (tstate B opts plug) := by
     unfold tstate
-    rw [keyOrder_ext h, List.foldl_append, conv_base h hplug opts]
+    rw [keyOrder_ext h, List.foldl_append, conv_base hconv]
     rfl
   rw [e]
   obtain ⟨k, hk⟩ := entryFuel_succ X
@@ -193,9 +207,9 @@ omit h in
 theorem noPending_B (hno : NoAugments B) (opts : Opts) (plug : Plug) : NoPending (pstate0 B opts plug) :=
   noPending_of_rows _ _ _ (rows_B hno opts plug)
 
-theorem noPending_X (hno : NoAugments B) {plug : Plug} (hplug : PlugAgree plug B X) (opts : Opts) :
+theorem noPending_X (hno : NoAugments B) {plug : Plug} {opts : Opts} (hconv : ConvAgree B X opts plug) :
     NoPending (pstate0 X opts plug) := by
-  obtain ⟨GA, hGA, ha⟩ := (tstate_ext h hplug opts).augs
+  obtain ⟨GA, hGA, ha⟩ := (tstate_ext h hconv).augs
   apply noPending_of_rows
   intro r hr
   rw [ha] at hr
@@ -217,10 +231,10 @@ theorem preDev_noPending (reg : Registry) (opts : Opts) (plug : Plug) (hs : NoPe
   rw [h2]
   simp
 
-theorem preDev_ext (hno : NoAugments B) {plug : Plug} (hplug : PlugAgree plug B X) (opts : Opts) :
+theorem preDev_ext (hno : NoAugments B) {plug : Plug} {opts : Opts} (hconv : ConvAgree B X opts plug) :
     ∃ G, NewTrees ds G ∧ (preDev X opts plug).forest = ext G (preDev B opts plug).forest := by
-  rw [preDev_noPending X opts plug (noPending_X h hno hplug opts), preDev_noPending B opts plug (noPending_B hno opts plug)]
-  obtain ⟨G, hG, hc⟩ := (tstate_ext h hplug opts).cache
+  rw [preDev_noPending X opts plug (noPending_X h hno hconv), preDev_noPending B opts plug (noPending_B hno opts plug)]
+  obtain ⟨G, hG, hc⟩ := (tstate_ext h hconv).cache
   refine ⟨G.map fun (x : Nat × Entry) => (x.1, fixChoice x.2), ?_, ?_⟩
   · intro g hg
     obtain ⟨g0, hg0, rfl⟩ := List.mem_map.mp hg
@@ -238,7 +252,8 @@ theorem devStage_eq (reg : Registry) (opts : Opts) (plug : Plug) (f0 : Forest) :
     devStage reg opts plug f0 =
       (keyOrder reg).foldl (stageStep reg opts (envOf reg opts plug) (entryFuel reg)) (f0, [], []) := rfl
 
-theorem devsOf_runs {plug : Plug} (hplug : PlugAgree plug B X) (opts : Opts) (m : Mod) (hm : m ∈ B.mods) :
+omit h in
+theorem devsOf_runs {plug : Plug} {opts : Opts} (hconv : ConvAgree B X opts plug) (m : Mod) (hm : m ∈ B.mods) :
     devsOf (envOf X opts plug) (entryFuel X) m = devsOf (envOf B opts plug) (entryFuel B) m := by
   unfold devsOf
   apply map_congr'
@@ -249,7 +264,7 @@ theorem devsOf_runs {plug : Plug} (hplug : PlugAgree plug B X) (opts : Opts) (m 
       (if deviateKinds.contains dsn.arg then
         some (dsn.arg, (toEntry (envOf B opts plug) (entryFuel B) m [dv, m.stmt] dsn [] {}).1) else none) := by
     intro dsn hds
-    rw [toEntry_runs h hplug opts m [dv, m.stmt] dsn [] {} (Fuel.Inv.deviate hm hdv hds)]
+    rw [hconv m [dv, m.stmt] dsn [] {} (Fuel.Inv.deviate hm hdv hds)]
   rw [filterMap_congr' this]
 
 /-- The locations the deviations of the new modules resolve to, each at its turn, in the run with
@@ -281,7 +296,7 @@ def PreDevAgree (B X : Registry) (ds : List Mod) (opts : Opts) (plug : Plug) : P
 /-- **The frame across module sets from the deviation stage on**: whatever the earlier stages are
 like, if they end in forests that agree on the trees of `B`, the results agree outside the targets
 of the new modules' deviations. -/
-theorem frame_core_of_preDev {plug : Plug} (hplug : PlugAgree plug B X) (opts : Opts)
+theorem frame_core_of_preDev {plug : Plug} {opts : Opts} (hconv : ConvAgree B X opts plug)
     (hpre : PreDevAgree B X ds opts plug)
     (hX : (processAll X opts plug).errors = []) (hB : (processAll B opts plug).errors = [])
     (t : Nat) (q : Path) (dd : EData) (ho : obsE (processAll B opts plug).forest t q = some dd)
@@ -293,7 +308,7 @@ theorem frame_core_of_preDev {plug : Plug} (hplug : PlugAgree plug B X) (opts : 
   rw [hfB, devStage_eq] at ho
   obtain ⟨G, hG, hpre⟩ := hpre
   have hbase := stageFold_ext h hG opts (envOf X opts plug) (envOf B opts plug) (entryFuel X) (entryFuel B) (keyOrder B)
-    (fun m hm => Bridge.keyOrder_mem B m hm) (fun m hm => devsOf_runs h hplug opts m (Bridge.keyOrder_mem B m hm))
+    (fun m hm => Bridge.keyOrder_mem B m hm) (fun m hm => devsOf_runs hconv m (Bridge.keyOrder_mem B m hm))
     (preDev B opts plug).forest [] []
   have hdrop : (keyOrder X).drop (keyOrder B).length = newOrder X dk := by
     rw [keyOrder_ext h, List.drop_left]
@@ -303,12 +318,12 @@ theorem frame_core_of_preDev {plug : Plug} (hplug : PlugAgree plug B X) (opts : 
   exact stage_frame X opts (envOf X opts plug) (entryFuel X) t q dd (newOrder X dk) _ (obsE_ext G _ t q dd ho) hq
 
 /-- **The frame across module sets, on the stages of `processAll`.** -/
-theorem frame_core (hno : NoAugments B) {plug : Plug} (hplug : PlugAgree plug B X) (opts : Opts)
+theorem frame_core (hno : NoAugments B) {plug : Plug} {opts : Opts} (hconv : ConvAgree B X opts plug)
     (hX : (processAll X opts plug).errors = []) (hB : (processAll B opts plug).errors = [])
     (t : Nat) (q : Path) (dd : EData) (ho : obsE (processAll B opts plug).forest t q = some dd)
     (hq : ∀ loc ∈ newTargets B X opts plug, ¬ (loc.1 = t ∧ loc.2 <+: q)) :
     obsE (processAll X opts plug).forest t q = some dd :=
-  frame_core_of_preDev h hplug opts (preDev_ext h hno hplug opts) hX hB t q dd ho hq
+  frame_core_of_preDev h hconv (preDev_ext h hno hconv) hX hB t q dd ho hq
 
 end
 
